@@ -224,6 +224,10 @@ class sequence_variables:
             n = float(count)
             mean = sum / n
             sumsq = sumsq / n - mean * mean
+            if sumsq < 0:
+                # rounding of the one-pass formula; a variance is never
+                # negative (and sqrt of it would raise)
+                sumsq = 0.0
             data['mean-%s' % name] = mean
             data['total-%s' % name] = sum
             data['variance-n-%s' % name] = sumsq
